@@ -935,7 +935,7 @@ var expectedProbes = map[string][]string{
 	"C08": {"fanout-notify-to-subscriber", "reg-server-device-omitted", "duplicate-subscribe-refused", "entity-removal-names-unknown-entity-first", "c08r-payload-compared", "mirror-data-compared", "mirror-write", "c08-left-before-discovery", "reg-delete-names-other-device", "c08r-remote-write-accepted"},
 	"C09": {"bind-granted", "two-bind-requests-for-one-feature-overlapped", "reg-server-device-omitted", "reg-requested-type-differs", "reg-delete-names-other-device"},
 	"C10": {"teardown-with-state", "approval-verdict-given", "approval-left-pending", "mirror-teardown-observed", "c10-address-less-peer-removed-with-pending-write", "peers-with-prefix-related-device-addresses"},
-	"C11": {"c11-snapshot-verified", "c11-non-persisting-update-checked", "c11-reader-pass", "c11h-snapshot-verified"},
+	"C11": {"c11-snapshot-verified", "c11-non-persisting-update-checked", "c11-reader-pass", "c11h-snapshot-verified", "c11-refused-write-checked"},
 	"C12": {"c12-expect-applied", "c12-expect-error", "verdict-overlapped-timeout", "several-writes-on-one-feature", "c12r-second-write-partly-approved", "c12r-first-write-partly-approved", "c12d-later-round-decided", "c12d-later-round-refused", "c12t-write-decided", "c12t-write-approved"},
 	"C13": {"c13-overlapping-sends", "c13w-request-from-callback", "c13w-request-withheld", "more-than-64-unanswered-requests", "more-than-100-notifications", "c13-response-references-a-notification", "c13-many-answered-requests-first"},
 	"C14": {"c14-callback-fired-once", "c14-registration-overlapped-arrival", "c14-key-shared-between-peers", "c14-bystander-removed", "mirror-callback-fired-once", "mirror-answer-overtook-registration", "c14-many-result-callbacks"},
